@@ -43,6 +43,31 @@ theorem natDigitsAux_spec : ∀ (fuel n : Nat) (acc : Str), n < fuel →
           _ = a * (10 ^ m * 10) + n := by rw [this]
       · rw [h2]; simp [allDigits, isDigit_digitChar _ hlt]
 
+theorem natDigitsAux_chars : ∀ (fuel n : Nat) (acc : Str), n < fuel →
+    ∀ c ∈ natDigitsAux fuel n acc, c ∈ acc ∨ ∃ d, d < 10 ∧ c = digitChar d
+  | 0, n, acc, h, _, _ => by omega
+  | fuel + 1, n, acc, h, c, hc => by
+    simp only [natDigitsAux] at hc
+    split at hc
+    · next hlt =>
+      simp only [List.mem_cons] at hc
+      rcases hc with hc | hc
+      · exact .inr ⟨n, hlt, hc⟩
+      · exact .inl hc
+    · have hlt : n % 10 < 10 := Nat.mod_lt _ (by decide)
+      rcases natDigitsAux_chars fuel (n / 10) _ (by omega) c hc with h' | h'
+      · simp only [List.mem_cons] at h'
+        rcases h' with h' | h'
+        · exact .inr ⟨n % 10, hlt, h'⟩
+        · exact .inl h'
+      · exact .inr h'
+
+theorem showNat_chars (n : Nat) : ∀ c ∈ showNat n, ∃ d, d < 10 ∧ c = digitChar d := by
+  intro c hc
+  rcases natDigitsAux_chars (n + 1) n [] (by omega) c hc with h | h
+  · simp at h
+  · exact h
+
 theorem showNat_spec (n : Nat) :
     digitsVal 0 (showNat n) = n ∧ allDigits (showNat n) = true ∧ ∃ c r, showNat n = c :: r ∧ isDigit c = true := by
   obtain ⟨h1, h2, h3⟩ := natDigitsAux_spec (n + 1) n [] (by omega)
